@@ -283,6 +283,9 @@ Section CfgSafety.
       econstructor; [apply step_fn3_sound; exact E | apply IH; exact H].
   Qed.
 
+  Corollary run3_reachable ls s : run3 cfg_of is_cc (init3) ls = Some s -> reachable3 s.
+  Proof. intros H. exists ls. now apply run3_sound. Qed.
+
 End CfgSafety.
 
 (* ---------------------------------------------------------------- *)
